@@ -209,6 +209,41 @@ def facts_atom(repo, lean):
 
 
 
+def facts_tcgen(repo, lean):
+    """Tie A for the HAND-WRITTEN type-class combinators: harness/cmd/tc2lean TRANSLATES typeclass.go (EqFunc, CompareFunc,
+    LessFunc, CloneFunc, EqGiven, LessGiven), monoid.go, eq/eq_op.go, hash/hash_op.go, ord/ord_op.go, monoid/monoid_op.go,
+    semigroup/semigroup.go, clone/clone.go of the working tree into Lean definitions (FpVerif/Gen/TCGen.lean, not under
+    version control); the committed theorems of Spec/C09Gen, C09GenHash, C09GenPred, C10Gen, C11Gen, C18Gen state, per declaration, that the
+    translated definition is the model definition (rfl or a proved extensional equality), Spec/TCGenCover that the exported
+    declarations of those files are exactly translated + listed exceptions.  Declarations outside the fragment are NOT an
+    error here (the exception list lives in Spec/TCGenCover.lean and is checked there by `decide`)."""
+    out = os.path.join(lean, 'FpVerif', 'Gen', 'TCGen.lean')
+    os.makedirs(os.path.dirname(out), exist_ok=True)
+    harness = os.path.join(os.path.dirname(lean), 'harness')
+    env = dict(os.environ, GOFLAGS='-mod=mod', GOPROXY='off', GOSUMDB='off', GOTOOLCHAIN='local')
+    tmp_out = out + '.new.%d' % os.getpid()
+    p = subprocess.run(['go', 'run', './cmd/tc2lean', repo, tmp_out], cwd=harness, env=env, stdout=subprocess.PIPE,
+                       stderr=subprocess.STDOUT, text=True)
+    if p.returncode != 0 or not os.path.exists(tmp_out):
+        if os.path.exists(out):
+            os.remove(out)
+        return dict(error='tc2lean failed: ' + p.stdout[-800:], obligations=1)
+    # keep the old file (and its build products) when the translation did not change
+    if not os.path.exists(out) or open(out).read() != open(tmp_out).read():
+        os.replace(tmp_out, out)
+    else:
+        os.remove(tmp_out)
+    info = json.loads(p.stdout.strip().split('\n')[-1])
+    res = dict(tc_found=info['found'], tc_translated=info['translated'], tc_helpers=info['helpers'],
+               tc_untranslated=sorted(info['untranslated']), obligations=1, generated='FpVerif/Gen/TCGen.lean')
+    if info.get('parse_errors'):
+        res['error'] = 'tc2lean: parse errors: ' + json.dumps(info['parse_errors'])[:800]
+    return res
+
+
+
+
+
 import re as _re
 
 def project_future(line):
@@ -550,8 +585,8 @@ def _only(classes):
 
 CHECKS_TC = {
     'C09': dict(
-        spec=['FpVerif.Spec.C09', 'FpVerif.Spec.C14Gen'],
-        facts=facts_tuplegen,
+        spec=['FpVerif.Spec.C09', 'FpVerif.Spec.C14Gen', 'FpVerif.Spec.C09Gen', 'FpVerif.Spec.C09GenHash', 'FpVerif.Spec.C09GenPred', 'FpVerif.Spec.TCGenCover'],
+        facts=facts_all(facts_tuplegen, facts_tcgen),
         harnesses=[H('tc', 'oracle_tc', 3000, 300000, extra=_only('eq,hash'))],
         level='proof',
         modelled='typeclass.go (Eq, EqFunc, EqGiven, Hashable); eq/eq_op.go (New, Time, Bytes, Tuple1, Option, Seq, Slice, '
@@ -565,8 +600,8 @@ CHECKS_TC = {
                      'ContraMap functions are pure (the theorems quantify over all functions)'],
     ),
     'C10': dict(
-        spec=['FpVerif.Spec.C10', 'FpVerif.Spec.C10Ext', 'FpVerif.Spec.C14Gen'],
-        facts=facts_tuplegen,
+        spec=['FpVerif.Spec.C10', 'FpVerif.Spec.C10Ext', 'FpVerif.Spec.C14Gen', 'FpVerif.Spec.C10Gen', 'FpVerif.Spec.TCGenCover'],
+        facts=facts_all(facts_tuplegen, facts_tcgen),
         harnesses=[H('tc', 'oracle_tc', 3000, 200000, extra=_only('ord')),
                    # SortSeqT / MinSeqT / MaxSeqT of try/try_seqt.go (Spec/C10Ext.lean); SortSeqT is only run with orders whose Eqv elements are indistinguishable
                    # (sort.Sort is unstable); Min/Max answers rendered by the equivalence class of the result (C10 fixes "a least element", not which)
@@ -585,8 +620,8 @@ CHECKS_TC = {
                      '(note:seq.Sort-mutated-its-input(C04)), a failure only with the harness flag -c04'],
     ),
     'C11': dict(
-        spec=['FpVerif.Spec.C11', 'FpVerif.Spec.C14Misc', 'FpVerif.Spec.C14Gen'],
-        facts=facts_tuplegen,
+        spec=['FpVerif.Spec.C11', 'FpVerif.Spec.C14Misc', 'FpVerif.Spec.C14Gen', 'FpVerif.Spec.C11Gen', 'FpVerif.Spec.TCGenCover'],
+        facts=facts_all(facts_tuplegen, facts_tcgen),
         harnesses=[H('tc', 'oracle_tc', 3000, 300000, extra=_only('mon,sg')),
                    # monoid adapters SemigroupFunc.Empty/Curried, EmptyFunc.Empty, monoid.ToMonoid/Curried (toMonoid_lawful_iff ...)
                    H('misc', 'oracle_misc', 3000, 300000, spec_level=True)],
@@ -602,8 +637,8 @@ CHECKS_TC = {
                      'functions (Endo) are compared extensionally; in the harness on the domain [-2..3]'],
     ),
     'C18': dict(
-        spec=['FpVerif.Spec.C18', 'FpVerif.Spec.C14Gen'],
-        facts=facts_tuplegen,
+        spec=['FpVerif.Spec.C18', 'FpVerif.Spec.C14Gen', 'FpVerif.Spec.C18Gen', 'FpVerif.Spec.TCGenCover'],
+        facts=facts_all(facts_tuplegen, facts_tcgen),
         harnesses=[H('clone', 'oracle_clone', 4000, 400000)],
         level='proof',
         modelled='clone/clone.go (New, Ptr, Given, HNil, Seq, GoMap, Slice, Option, HCons, Tuple2, Generic) + clone/clone_gen.go '
@@ -726,6 +761,16 @@ for _pid in ('C01', 'C02', 'C17'):
 CHECKS['C14']['modelled'] = CHECKS['C14'].get('modelled', '') + _TIE_A_MONAD + _TIE_A_ARITY
 CHECKS['C14']['technique'] = ('Lean 4 proof over hand-written arity-generic model + regenerated Go->Lean translation of the generated families proved '
                               'equal to the model per arity (Tie A) + differential correspondence check')
+_TIE_A_TC = (' Session 6, Tie A: harness/cmd/tc2lean TRANSLATES the hand-written combinators of typeclass.go, monoid.go, eq/eq_op.go, hash/hash_op.go, ord/ord_op.go, '
+             'monoid/monoid_op.go, semigroup/semigroup.go, clone/clone.go found in the working tree (112 of 127 exported declarations; 15 listed exceptions: time, '
+             'bytes, Go maps, fp.Map/Set, clone.Ptr/Generic, monoid.Future, two adapters) into FpVerif/Gen/TCGen.lean over a committed semantics of the Go fragment '
+             '(Model/GoSem.lean: loop schemas, zero values); Spec/C09Gen, C09GenHash, C09GenPred, C10Gen, C11Gen, C18Gen (150 theorems): translated = model (rfl or '
+             'proved extensional equality incl. index loops = list recursion), TCGenCover (7): exported declarations = translated + exceptions; laws transported to '
+             'the translated code.')
+for _pid in ('C09', 'C10', 'C11', 'C18'):
+    CHECKS[_pid]['modelled'] = CHECKS[_pid].get('modelled', '') + _TIE_A_TC
+    CHECKS[_pid]['technique'] = ('Lean 4 proof over hand-written executable model + regenerated Go->Lean translation of the typeclass combinators and the generated '
+                                 'TupleN instances proved equal to the model (Tie A) + differential correspondence check')
 for _pid in ('C05', 'C06', 'C19', 'C16'):
     CHECKS[_pid]['modelled'] = CHECKS[_pid].get('modelled', '') + _TIE_C_ATOM
     CHECKS[_pid]['technique'] = ('Lean 4 proof over hand-written executable step-machine model + regenerated atomic-step facts decided by the kernel '
